@@ -407,7 +407,23 @@ func (m Mix) next(g *sim.G) *sim.Op {
 	if m.AttProbe > 0 && g.Pct("attprobe", m.AttProbe) {
 		// the attester manager enables or disables an entry (under whatever spelling it has), then
 		// submissions attested by the set as that change leaves it
-		kind := g.Int("ap/kind", 0, 3)
+		kind := g.Int("ap/kind", 0, 4)
+		if kind == 4 {
+			// an enabled entry X and entries whose strings extend it ("X/01", "X00"); then X is disabled:
+			// exactly the named entry goes
+			if l := g.W.Model.AttesterList(); len(l) > 0 {
+				x := sim.Pick(g, "ap/xbase", l)
+				mgr := g.W.Model.Roles[1]
+				ops := []*sim.Op{
+					sim.TxOp("admin:EnableAttester", &types.MsgEnableAttester{From: mgr, Attester: x + sim.Pick(g, "ap/xs1", []string{"/01", "/", "/zz"})}),
+					sim.TxOp("admin:EnableAttester", &types.MsgEnableAttester{From: mgr, Attester: x + sim.Pick(g, "ap/xs2", []string{"00", "0", "ff"})}),
+					sim.TxOp("admin:DisableAttester", &types.MsgDisableAttester{From: mgr, Attester: x}),
+				}
+				queueOps(g, ops[1:]...)
+				return ops[0]
+			}
+			kind = 0
+		}
 		if kind == 3 {
 			// twins: one key enabled under two spellings (two registry entries), one of them disabled;
 			// the other entry must stay, and its signature keeps counting
